@@ -232,6 +232,15 @@ theorem reach_of_run {w0 : World} : ∀ (ls : List Label) {w : World}, run w0 ls
 @[simp] theorem takeConn_addrF (w : World) (i k : Nat) : (takeConn w i k).addrF = w.addrF := rfl
 @[simp] theorem takeConn_wgPanic (w : World) (i k : Nat) : (takeConn w i k).wgPanic = w.wgPanic := rfl
 
+@[simp] theorem bound_calls (w : World) (a : Nat) : (bound w a).calls = w.calls := rfl
+@[simp] theorem bound_conns (w : World) (a : Nat) : (bound w a).conns = w.conns := rfl
+@[simp] theorem bound_running (w : World) (a : Nat) : (bound w a).running = w.running := rfl
+@[simp] theorem bound_counter (w : World) (a : Nat) : (bound w a).counter = w.counter := rfl
+@[simp] theorem bound_wgPanic (w : World) (a : Nat) : (bound w a).wgPanic = w.wgPanic := rfl
+@[simp] theorem bound_lst (w : World) (a : Nat) : (bound w a).lst = some w.lsnrs.length := rfl
+@[simp] theorem bound_addrF (w : World) (a : Nat) : (bound w a).addrF = some a := rfl
+@[simp] theorem bound_lsnrs (w : World) (a : Nat) : (bound w a).lsnrs = w.lsnrs ++ [{ addr := a }] := rfl
+
 /-- the phase of a connection that `closeL` touches: only backlog → dropped -/
 theorem dropIfWaiting_phase (l : Nat) (x : Conn) :
     (dropIfWaiting l x).phase = x.phase ∨ (x.phase = .backlog ∧ (dropIfWaiting l x).phase = .dropped) := by
